@@ -19,7 +19,7 @@ CONFIGS = {
     "alloc": (["--no-default-features", "--features", "alloc"], True),
     "memmap-tracing": (["--features", "memmap,tracing"], True),
 }
-QUICK = ["memmap"]
+QUICK = ["memmap", "std"]
 THOROUGH = ["memmap", "memmap-nooverflow", "std", "alloc", "memmap-tracing"]
 
 
